@@ -14,11 +14,46 @@ EXTRA = "Valid.CheckC01"
 BOUNDARY = [0, 1, -1, 2, -2, 3, 5, 7, -7, 2147483647, -2147483648, 65536, -65536, 46341, 1000]
 
 
-def case_for(cid, decls, bpj):
-    """returns (defs text, expr text, meta) or raises bpexport.Unsupported"""
+_TILE = {}
+
+
+def tile_size(proto):
+    """footprint in tiles from the game data shipped with draftsman (collision box rounded up)"""
+    if proto not in _TILE:
+        from draftsman.data import entities as _e
+        import math
+
+        raw = _e.raw[proto]
+        if "tile_width" in raw and "tile_height" in raw:
+            _TILE[proto] = (int(raw["tile_width"]), int(raw["tile_height"]))
+        else:
+            (x1, y1), (x2, y2) = raw["collision_box"]
+            _TILE[proto] = (max(1, math.ceil(x2 - x1)), max(1, math.ceil(y2 - y1)))
+    return _TILE[proto]
+
+
+def find_entity(bpj, proto, x, y):
+    """index (position in the entity list) of the entity of that prototype whose top-left tile is (x, y)"""
+    w, h = tile_size(proto)
+    found = []
+    for i, e in enumerate(bpexport.entities_of(bpj)):
+        if e["name"] != proto:
+            continue
+        d = e.get("direction", 0)
+        ww, hh = (h, w) if d in (4, 12) else (w, h)
+        if abs(e["position"]["x"] - (x + ww / 2)) < 1e-6 and abs(e["position"]["y"] - (y + hh / 2)) < 1e-6:
+            found.append(i)
+    return found
+
+
+def case_for(cid, decls, bpj, ideal=None, entities=None):
+    """returns (defs text, expr text, meta) or raises bpexport.Unsupported.
+    ideal: harvested logical edges -> check the idealised private-network circuit instead"""
     names = [d[1] for d in decls]
     input_vars = {d[1]: i + 1 for i, d in enumerate(decls) if d[0] == "in"}
     ex = bpexport.Exporter(bpj, input_vars=input_vars)
+    if ideal is not None:
+        ex.set_ideal(ideal)
     # intern the program's explicit signal names first so that ids are stable
     bp_text = ex.export(f"bp_{cid}")
     exposed = set(ex.used_inputs)
@@ -37,21 +72,41 @@ def case_for(cid, decls, bpj):
     ds_text = fa.coq_decls(decls, ex.sig, input_vars, exposed)
     # signal ids may have grown while exporting decls (explicit names that the blueprint never
     # mentions): re-export so that b_univ covers them
-    bp_text = bpexport.Exporter(bpj, input_vars=input_vars, extra_signals=list(ex.sig.ids)).export(f"bp_{cid}")
+    ex2 = bpexport.Exporter(bpj, input_vars=input_vars, extra_signals=list(ex.sig.ids))
+    if ideal is not None:
+        ex2.set_ideal(ideal)
+    bp_text = ex2.export(f"bp_{cid}")
     n = len(bpexport.entities_of(bpj))
+    rs = []
+    ent_problems = []
+    for k, en in enumerate(entities or []):
+        idx = find_entity(bpj, en["proto"], en["x"], en["y"])
+        if len(idx) != 1:
+            ent_problems.append({"entity": en["name"], "proto": en["proto"], "tile": [en["x"], en["y"]], "found": len(idx)})
+            continue
+        if en.get("enable") is not None:
+            rs.append(f"{{| r_ent := {idx[0]}%nat; r_expr := {fa.coq_expr(en['enable'], ex.sig)} |}}")
+            outs.append((f"{en['name']}.enable@({en['x']},{en['y']})", en["proto"]))
+    if rs:
+        # the enable expressions may mention further explicit signal names
+        ex2 = bpexport.Exporter(bpj, input_vars=input_vars, extra_signals=list(ex.sig.ids))
+        if ideal is not None:
+            ex2.set_ideal(ideal)
+        bp_text = ex2.export(f"bp_{cid}")
     defs = (
         bp_text
         + f"Definition ds_{cid} : list decl :=\n  {ds_text}.\n"
         + f"Definition qs_{cid} : list out_req := [{'; '.join(qs)}].\n"
+        + f"Definition rs_{cid} : list ent_req := [{'; '.join(rs)}].\n"
     )
-    expr = f"ok (check_c01 bp_{cid} {n + 2}%nat ds_{cid} qs_{cid})"
+    expr = f"ok (check_prog bp_{cid} {n + 2}%nat ds_{cid} qs_{cid} rs_{cid})"
     meta = {"outputs": outs, "exposed": sorted(exposed), "entities": n, "n_inputs": len(input_vars),
-            "signals": dict(ex.sig.ids)}
+            "signals": dict(ex.sig.ids), "entity_problems": ent_problems}
     return defs, expr, meta
 
 
 def debug_case(cid, defs, n):
-    rc, outs, text = H.coq_eval(defs, [f"debug_c01 bp_{cid} {n + 2}%nat ds_{cid} qs_{cid}"], EXTRA, tag=f"dbg{cid}")
+    rc, outs, text = H.coq_eval(defs, [f"debug_prog bp_{cid} {n + 2}%nat ds_{cid} qs_{cid} rs_{cid}"], EXTRA, tag=f"dbg{cid}")
     return outs[0] if outs and outs[0] else text[-3000:]
 
 
@@ -75,7 +130,7 @@ def search_failing_input(cid, defs, n, n_inputs, rng, extra_values=()):
     lst = "[" + "; ".join("[" + "; ".join(fa.zc(v) for v in e) + "]" for e in envs) + "]"
     expr = (
         f"map (fun e => forallb (fun p => Z.eqb (fst p) (snd p)) "
-        f"(conc_c01 bp_{cid} {n + 3}%nat ds_{cid} qs_{cid} (env_of e))) {lst}"
+        f"(conc_prog bp_{cid} {n + 3}%nat ds_{cid} qs_{cid} rs_{cid} (env_of e))) {lst}"
     )
     rc, outs, text = H.coq_eval(defs, [expr], EXTRA, tag=f"srch{cid}")
     if not outs or outs[0] is None:
@@ -84,7 +139,7 @@ def search_failing_input(cid, defs, n, n_inputs, rng, extra_values=()):
     for e, f in zip(envs, flags):
         if f == "false":
             el = "[" + "; ".join(fa.zc(v) for v in e) + "]"
-            rc, o2, _ = H.coq_eval(defs, [f"conc_c01 bp_{cid} {n + 3}%nat ds_{cid} qs_{cid} (env_of {el})"], EXTRA,
+            rc, o2, _ = H.coq_eval(defs, [f"conc_prog bp_{cid} {n + 3}%nat ds_{cid} qs_{cid} rs_{cid} (env_of {el})"], EXTRA,
                                    tag=f"srch2{cid}")
             pairs = re.findall(r"\((-?\d+),\s*(-?\d+)\)", (o2[0] or "").replace("%Z", ""))
             return e, [(int(a), int(b)) for a, b in pairs]
